@@ -25,7 +25,8 @@ RULE = ("[aave] for each operation and each rejection cause the model distinguis
         "that exactly that precondition fails; bucket = (operation, model rejection cause, argument class)")
 TRUSTED = ["[aave] the rejected-call theorems hold for every arithmetic context"]
 ASSUMPTIONS = ["[aave] change_collateral: the health-factor evaluation itself cannot raise (coherent caches, bar data covers held tokens — C13)",
-               "[aave] update(): only the closed-market rejection is covered; an exception escaping the liquidation loop is C12's concern"]
+               "[aave] update(): the closed-market rejection and the DemeterError at an exact liquidation tie (pre-d1c4970 it left the collateral seized); "
+               "other exceptions escaping the liquidation loop need malformed bar data (zero index / price) and are C12's concern"]
 
 CAUSES = {
     "supply": ["closed", "zero", "negative", "cannotCollateral", "unknown", "flagMismatch", "insufficient", "walletUnknown"],
@@ -257,12 +258,33 @@ def run_sequence(ctx: Ctx, rng, reqs, meta, exact_env):
         ctx.impl_traces += 1
 
 
+def run_tie(ctx: Ctx, rng, reqs, meta):
+    """`update()` on a portfolio at an exact liquidation tie: whatever it raises, it must leave everything as it was"""
+    env, m, b, actions, kind = A.tie_market(rng)
+    if rng.random() < 0.5:
+        A.apply_op(m, {"kind": "read", "view": rng.choice(A.VIEWS0)})
+    op = {"kind": "update"}
+    s0 = A.dump_state(m, b, actions, len(actions))
+    n0 = len(actions)
+    before = snapshot(m, b, actions, env["tokens"])
+    outcome, _ = A.apply_op(m, op)
+    after = snapshot(m, b, actions, env["tokens"])
+    s1 = A.dump_state(m, b, actions, n0)
+    case = {"env": A.env_json(env), "state": s0, "op": op}
+    check_reject(ctx, before, after, op, outcome, case)
+    reqs.append(A.step_request(env, s0, op))
+    meta.append((case, outcome, s1, "update", "liqTie:" + kind))
+    ctx.impl_traces += 1
+
+
 def run(ctx: Ctx):
     rng = ctx.rng
     nseq = ctx.scale(70, 2800)
     reqs, meta = [], []
     for i in range(nseq):
         run_sequence(ctx, rng, reqs, meta, exact_env=(i % 3 == 1))
+    for i in range(ctx.scale(10, 200)):
+        run_tie(ctx, rng, reqs, meta)
     if ctx.driver_ok:
         outs = driver_json(reqs, exe=A.EXE)
         for (case, outcome, s1, kind, cause), o in zip(meta, outs):
